@@ -11,6 +11,10 @@ server's login reply) is turned into a model operation at the place where it hap
   oracle          the statement, on the implementation alone: counter == initial + number of 'S' packets written after every
                   operation; client adopts the stated number; k-th FIX frame carries logon+k; a send rejected by validation
                   writes nothing and leaves the counter alone
+  several sessions  histories over 2-4 sessions alive in one process, operations interleaved (section "several sessions" below):
+                  the oracle is evaluated per session, the model is the product of the per-session models (Model/SeqMulti.lean,
+                  Props/C10Multi.lean: a session's state is a function of its own sub-history; Witness/C10Multi.lean: a counter shared
+                  between sessions is not)
 """
 import asyncio
 import importlib.util
@@ -1000,6 +1004,546 @@ def segment_witness_histories():
 
 
 # =====================================================================================================================
+# several sessions alive in one process (FIX sessions of any version, soup servers and clients), operations interleaved
+# =====================================================================================================================
+# A multi-session history:
+#   {'sessions': [S0, S1, ...], 'events': [[sid | None, op], ...]}          (session id = position; JSON form through h_json)
+#   S (FIX)  = {'proto': 'fix', 'ver': '42'|'44'|'50', 'seq_arg': None | ['int', n] | ['count', n], 'hb': bool}
+#              seq_arg: FixSession(sequence=…) not given / an int / an itertools.count;  hb: the local heartbeat monitor fires (HB) or not
+#   S (soup) = {'proto': 'soup', 'role': 'server'|'client', 'init': int | None (no sequence= argument), 'connected': bool}
+#   op (FIX)  = ['logon', spec] (spec['hdr'] with or without 'MsgSeqNum') | ['send', spec] | ['hb'] | ['close']
+#   op (soup) = an operation of gen_soup_ops (except 'advance') | ['login', gen_login(..)] (client)
+#   [None, ['advance', n]] = n * HB/2 of virtual time pass for the whole process (timer-driven heartbeats of every session)
+# Every write goes through one global log, so the order of the frames ALL sessions wrote (the explicit operation's own frame and
+# everything the monitors wrote meanwhile) is known; each write becomes a model event of its session at that place.
+FIX_VERSIONS = {'42': 'Fix42Session', '44': 'Fix44Session', '50': 'Fix50Session'}
+FIX_BEGIN = {'42': b'FIX.4.2', '44': b'FIX.4.4', '50': b'FIXT.1.1'}
+NO_HB = 100.0
+
+
+def _is_fix(sp):
+    return sp['proto'] == 'fix'
+
+
+def logon_stated(spec):
+    return (spec.get('hdr') or {}).get('MsgSeqNum')
+
+
+def describe_session(sid, sp):
+    if _is_fix(sp):
+        a = sp.get('seq_arg')
+        arg = 'no sequence= argument' if not a else (f'sequence={a[1]}' if a[0] == 'int' else f'sequence=itertools.count({a[1]})')
+        return f'FIX session {sid} (version {sp["ver"]}, {arg})'
+    return f'soup {sp["role"]} session {sid} (' + ('no sequence= argument' if sp.get('init') is None else f'sequence={sp["init"]}') + ')'
+
+
+def run_multi_history(h):
+    """-> {'events': [record], 'initial': [counter of every session before the first event], 'writes': [[bytes] per session]}
+    record = {'idx': position in h['events'], 'sid', 'proto', 'kind', …, 'snap': counters of ALL sessions after the harness event (on its
+    last record only)};  FIX kinds: logon / send / hb / close / auto (a frame the session wrote on its own);  soup kinds: the op name /
+    login / auto"""
+    import itertools
+    env = fixenv()
+    fix = env['fix']
+    s = soup()
+    loop = GuardedLoop()
+    out = {'events': [], 'initial': None, 'writes': []}
+    log = []                                                  # (sid, bytes) in the order of the writes of the whole process
+
+    class LoggedTransport(vloop.FakeTransport):
+        sid = None
+
+        def write(self, data):
+            log.append((self.sid, bytes(data)))
+            super().write(data)
+
+    def fix_outcome(err, own):
+        if own is not None:
+            return 'w ' + str(tag34(own))
+        return {'value': 'rej', 'type': 'type', 'unicode': 'enc', 'none': 'nothing'}.get(err, err)
+
+    async def main():
+        S = h['sessions']
+        sessions, trs, states = [], [], []
+        for sid, sp in enumerate(S):
+            tr = LoggedTransport(loop)
+            tr.sid = sid
+            state = {'reply': ('acc', 1)}
+            if _is_fix(sp):
+                kw = dict(client_heartbeat_interval=HB if sp.get('hb', True) else NO_HB, server_heartbeat_interval=1.0)
+                if sp.get('seq_arg'):
+                    kw['sequence'] = sp['seq_arg'][1] if sp['seq_arg'][0] == 'int' else itertools.count(sp['seq_arg'][1])
+                session = getattr(fix, FIX_VERSIONS[sp['ver']])(**kw)
+                session.connection_made(tr)
+            else:
+                kw = dict(client_heartbeat_interval=HB, server_heartbeat_interval=HB)
+                if sp.get('init') is not None:
+                    kw['sequence'] = sp['init']
+                if sp['role'] == 'server':
+                    session = make_server_cls()(**kw)
+                    session.reply_state = state
+                else:
+                    session = s.SoupClientSession(**kw)
+                if sp.get('connected', True):
+                    session.connection_made(tr)
+            sessions.append(session)
+            trs.append(tr)
+            states.append(state)
+
+        def snapshot():
+            return [peek_counter(x) if _is_fix(sp) else x.sequence for x, sp in zip(sessions, S)]
+
+        out['initial'] = snapshot()
+        for idx, (sid, op) in enumerate(h['events']):
+            n0 = len(log)
+            rec = None
+            take_own = False
+            if sid is None:
+                await asyncio.sleep(op[1] * HB / 2)
+            elif _is_fix(S[sid]):
+                session = sessions[sid]
+                rec = {'idx': idx, 'sid': sid, 'proto': 'fix', 'kind': op[0], 'valid': True, 'enc': True, 'segs': (True, True, True)}
+                err = 'none'
+                take_own = op[0] != 'close'
+                if op[0] in ('send', 'logon'):
+                    try:
+                        msg, rec['valid'], rec['segs'] = fix_build_segments(op[1])
+                        rec['enc'] = all(rec['segs'])
+                    except Exception as e:  # noqa
+                        msg, err = None, 'build:' + err_name(e)
+                if op[0] == 'send' and msg is not None:
+                    try:
+                        session.send_msg(msg)
+                    except Exception as e:  # noqa
+                        err = err_name(e)
+                elif op[0] == 'logon' and msg is not None:
+                    rec['stated'] = logon_stated(op[1])
+                    task = asyncio.ensure_future(session.login(msg))
+                    await vloop.turns(2)
+                    if task.done():
+                        try:
+                            task.result()
+                        except Exception as e:  # noqa
+                            err = err_name(e)
+                    else:
+                        session.data_received(logon_reply_frame(FIX_BEGIN[S[sid]['ver']]))
+                        try:
+                            await asyncio.wait_for(task, HB / 4)
+                        except Exception as e:  # noqa
+                            err = 'login:' + err_name(e)
+                elif op[0] == 'hb':
+                    try:
+                        await session.send_heartbeat()
+                    except Exception as e:  # noqa
+                        err = err_name(e)
+                elif op[0] == 'close':
+                    try:
+                        await session.close()
+                    except Exception:  # noqa
+                        pass
+                rec['err'] = err
+            else:
+                session, role = sessions[sid], S[sid]['role']
+                rec = {'idx': idx, 'sid': sid, 'proto': 'soup', 'kind': op[0]}
+                if op[0] == 'login':
+                    lg = op[1]
+                    err, acc = 'none', False
+                    task = asyncio.ensure_future(session.login(soup_pkt(lg['req'])))
+                    await vloop.turns(2)
+                    if not task.done():
+                        for fr in lg['replies']:
+                            session.data_received(bytes.fromhex(fr))
+                            await asyncio.sleep(0.0003)
+                    try:
+                        await asyncio.wait_for(task, HB / 4)
+                        acc = True
+                    except Exception as e:  # noqa
+                        err = err_name(e)
+                    rec.update(err=err, accepted=acc, seq=session.sequence, stated=lg.get('stated'), req=lg['req'],
+                               replies=[bytes.fromhex(x) for x in lg['replies']])
+                    take_own = True
+                else:
+                    err, mops = await apply_soup_op(session, trs[sid], role, op, states[sid])
+                    explicit = mops[0] if (mops and op[0] != 'feed_login') else None
+                    rec.update(err=err, mop=explicit)
+                    take_own = explicit is not None and explicit != 'close' and err == 'none'
+            new = log[n0:]
+            recs = []
+            if rec is not None:
+                rec['own'] = None
+                if take_own:
+                    for i, (a, w) in enumerate(new):
+                        if a == sid:
+                            rec['own'] = w
+                            del new[i]
+                            break
+                if rec['proto'] == 'fix' and rec['kind'] != 'close':
+                    rec['outcome'] = fix_outcome(rec['err'], rec['own'])
+                recs.append(rec)
+            for a, w in new:
+                if _is_fix(S[a]):
+                    recs.append({'idx': idx, 'sid': a, 'proto': 'fix', 'kind': 'auto', 'own': w, 'outcome': 'w ' + str(tag34(w)),
+                                 'valid': True, 'enc': True, 'is_hb': msgtype(w) == b'0'})
+                else:
+                    recs.append({'idx': idx, 'sid': a, 'proto': 'soup', 'kind': 'auto', 'own': w, 'err': 'none',
+                                 'mop': obs_to_model_op(S[a]['role'], w)})
+            for r in recs:
+                r['snap'] = None
+            if recs:
+                recs[-1]['snap'] = snapshot()
+            else:
+                recs.append({'idx': idx, 'sid': None, 'proto': None, 'kind': 'advance', 'own': None, 'snap': snapshot()})
+            out['events'] += recs
+        out['writes'] = [[w for _, w in tr.writes] for tr in trs]
+        for session in sessions:
+            try:
+                await session.close()
+            except BaseException:  # noqa
+                pass
+
+    out['escaped'] = run_guarded(loop, main())
+    return out
+
+
+def multi_oracle(h, out):
+    """the statement, per session, on the implementation alone -> description of the first failure or None.
+    FIX: the k-th frame a session writes after its logon carries logon MsgSeqNum + k (the number the logon states; when the logon
+    states none, the number its frame carries); a send rejected by validation writes nothing and leaves the session's counter alone;
+    nothing is written before the logon.  Soup: after every event of the process, EVERY soup session's counter equals its initial
+    (or adopted) value + the sequenced packets that session has written; a client adopts exactly the stated number."""
+    S = h['sessions']
+    fx = {sid: {'started': False, 'base': None, 'k': 0, 'others': 0} for sid, sp in enumerate(S) if _is_fix(sp)}
+    sp_init = {sid: (1 if sp.get('init') is None else sp['init']) for sid, sp in enumerate(S) if not _is_fix(sp)}
+    sp_n = {sid: 0 for sid in sp_init}
+    prev = out['initial']
+    for sid in sp_init:
+        if prev is not None and prev[sid] != sp_init[sid]:
+            return f'{describe_session(sid, S[sid])}: counter {prev[sid]!r} before any operation'
+    for rec in out['events']:
+        sid = rec['sid']
+        if rec['proto'] == 'fix':
+            x = fx[sid]
+            who = describe_session(sid, S[sid])
+            outc = rec.get('outcome', '')
+            if rec['kind'] == 'close':
+                pass
+            elif rec['kind'] != 'auto' and not rec['valid']:
+                if outc.startswith('w '):
+                    return f'{who}: event {rec["idx"]}: the body misses a required field but a frame was written ({outc})'
+                if rec['snap'] is not None and prev is not None and rec['snap'][sid] != prev[sid]:
+                    return (f'{who}: event {rec["idx"]}: the send was rejected by validation but the session\'s counter moved '
+                            f'{prev[sid]!r} -> {rec["snap"][sid]!r}')
+            else:
+                if rec['kind'] == 'logon':
+                    x['started'] = True
+                    x['base'] = rec.get('stated')
+                    x['k'] = 0
+                    x['how'] = (f'logon stating MsgSeqNum {x["base"]}' if x['base'] is not None else 'logon without MsgSeqNum')
+                if outc.startswith('w '):
+                    if not x['started']:
+                        return f'{who}: event {rec["idx"]}: a frame ({outc}) was written before the logon'
+                    n = tag34(rec['own'])
+                    if x['base'] is None and isinstance(n, int):
+                        x['base'] = n - x['k']              # the logon states no number: the number its frame carries
+                        x['how'] += f' (its frame carries {n})' if x['k'] == 0 else ''
+                    exp = x['base'] + x['k'] if isinstance(x['base'], int) else None
+                    if n != exp:
+                        what = 'automatic heartbeat' if rec['kind'] == 'auto' else rec['kind']
+                        return (f'{who}, {x["how"]}: frame number {x["k"]} after the logon ({what}, event {rec["idx"]}) carries '
+                                f'MsgSeqNum {n}, expected {x["base"]} + {x["k"]} = {exp}'
+                                + (f'; other sessions of the process wrote {x["others"]} frame(s) since this session\'s logon'
+                                   if x['others'] else ''))
+                    x['k'] += 1
+            if rec.get('own') is not None:
+                for b, y in fx.items():
+                    if b != sid and y['started']:
+                        y['others'] += 1
+        elif rec['proto'] == 'soup':
+            who = describe_session(sid, S[sid])
+            if rec['kind'] == 'login':
+                if rec['stated'] is not None:
+                    if not rec['accepted']:
+                        return f'{who}: login acceptance stating sequence {rec["stated"]} was not accepted ({rec["err"]})'
+                    if rec['seq'] != rec['stated']:
+                        return f'{who}: client adopted sequence {rec["seq"]!r}, the login acceptance states {rec["stated"]}'
+                if rec['accepted']:
+                    sp_init[sid], sp_n[sid] = rec['seq'], 0
+                elif rec['own'] is not None and rec['own'][2:3] == b'S':
+                    sp_n[sid] += 1
+            elif rec.get('own') is not None and rec['own'][2:3] == b'S':
+                sp_n[sid] += 1
+        if rec['snap'] is not None:
+            for b in sp_init:
+                exp = sp_init[b] + sp_n[b]
+                if rec['snap'][b] != exp:
+                    return (f'{describe_session(b, S[b])}: after event {rec["idx"]} (on session {sid}): counter {rec["snap"][b]!r}, expected '
+                            f'{sp_init[b]} + {sp_n[b]} sequenced packets written by this session = {exp}')
+            prev = rec['snap']
+    return None
+
+
+def multi_model_request(h, out):
+    """-> (request line, the records that have a model event, in order)"""
+    S = h['sessions']
+    sess = [['fix'] if _is_fix(sp) else ['soup', sp['role'], bool(sp.get('connected', True)), 1 if sp.get('init') is None else sp['init']]
+            for sp in S]
+    evs, recs = [], []
+    for rec in out['events']:
+        if rec['proto'] == 'fix':
+            if rec['kind'] == 'close':
+                continue
+            if rec['kind'] == 'logon':
+                q = rec.get('stated')
+                mop = ['login', 'none' if q is None else q, rec['valid'], rec['enc']]
+            elif rec['kind'] == 'auto':
+                mop = ['hb', True, True]
+            else:
+                mop = [rec['kind'], rec['valid'], rec['enc']]
+            evs.append([rec['sid'], ['fix', mop]])
+        elif rec['proto'] == 'soup':
+            if rec['kind'] == 'login':
+                evs.append([rec['sid'], ['login', rec['req'], rec['replies']]])
+            elif rec.get('mop') is None:
+                continue
+            else:
+                m = rec['mop']
+                evs.append([rec['sid'], ['soup', m if isinstance(m, str) else ['send', m[1]]]])
+        else:
+            continue
+        recs.append(rec)
+    return f'seq.multi {sx(sess)} {sx(evs)}', recs
+
+
+def multi_compare(h, out, ans, recs):
+    """correspondence with Model/SeqMulti.lean (the product of the per-session models): per event the outcome and the counter of EVERY
+    session, at the end what every session wrote"""
+    S = h['sessions']
+    p = common.parse_sx(ans)
+    if p[0] != 'ok':
+        return f'model answered {ans[:80]}'
+    mtrace, mfinal = p[1], p[2]
+    if len(mtrace) != len(recs):
+        return 'trace lengths differ'
+    for rec, m in zip(recs, mtrace):
+        mo, mc = m[0], m[1]
+        where = f'event {rec["idx"]} ({rec["kind"]} on session {rec["sid"]})'
+        if rec['proto'] == 'fix':
+            mout = ' '.join(mo[1:]) if isinstance(mo, list) else mo
+            if rec['outcome'] != mout:
+                return f'{where}: model outcome "{mout}", implementation "{rec["outcome"]}"'
+        elif rec['kind'] == 'login':
+            if not isinstance(mo, list) or mo[0] != 'login':
+                return f'{where}: model answered {mo}'
+            if (mo[2] == 'true') != rec['accepted']:
+                return f'{where}: model accepted={mo[2]}, implementation accepted={rec["accepted"]} ({rec["err"]})'
+            if mo[1] != 'none' and mo[1] != rec['err']:
+                return f'{where}: login send: model raises {mo[1]}, implementation {rec["err"]}'
+        else:
+            merr = mo[1] if isinstance(mo, list) else mo
+            if merr != rec['err']:
+                return f'{where}: model raises {merr}, implementation {rec["err"]}'
+        if rec['snap'] is not None:
+            for b, (mv, iv) in enumerate(zip(mc, rec['snap'])):
+                if _is_fix(S[b]) and mv == 'none':
+                    same = iv == out['initial'][b]            # not logged on: still what the session was created with
+                else:
+                    same = str(iv) == mv
+                if not same:
+                    return (f'{where}: counter of session {b}: model {mv}, implementation {iv!r}'
+                            + ('' if b == rec['sid'] else ' — a session the event did not touch'))
+    for b, (sp, mf) in enumerate(zip(S, mfinal)):
+        if _is_fix(sp):
+            got = [str(tag34(f)) for f in out['writes'][b]]
+        else:
+            got = ['x' + w.hex() for w in out['writes'][b]]
+        if got != mf[1:]:
+            return f'what session {b} wrote: model {mf[1:][:10]}, implementation {got[:10]}'
+    return None
+
+
+def drop_session(h, sid):
+    evs = []
+    for a, op in h['events']:
+        if a == sid:
+            continue
+        evs.append([a - 1 if (a is not None and a > sid) else a, op])
+    return {'sessions': h['sessions'][:sid] + h['sessions'][sid + 1:], 'events': evs}
+
+
+def shrink_multi(h, failing, budget=25.0):
+    """fewer sessions, fewer events, plainer sessions — while `failing(history)` stays true"""
+    import time
+    deadline = time.time() + budget
+
+    def bad(c):
+        if time.time() > deadline:
+            return False
+        try:
+            return bool(failing(c))
+        except Exception:  # noqa
+            return False
+    h = h_unjson(h_json(h))
+    sid = 0
+    while sid < len(h['sessions']) and len(h['sessions']) > 1:
+        cand = drop_session(h, sid)
+        if bad(cand):
+            h = cand
+        else:
+            sid += 1
+    i = 0
+    while i < len(h['events']):
+        cand = dict(h, events=h['events'][:i] + h['events'][i + 1:])
+        if bad(cand):
+            h = cand
+        else:
+            i += 1
+    for sid, sp in enumerate(h['sessions']):            # plainer sessions: no monitor, version 4.4
+        for key, val in (('hb', False), ('ver', '44')):
+            if _is_fix(sp) and sp.get(key) != val:
+                cand = dict(h, sessions=[dict(x, **{key: val}) if j == sid else x for j, x in enumerate(h['sessions'])])
+                if bad(cand):
+                    h = cand
+    for i, (a, op) in enumerate(h['events']):            # plainer messages
+        if op[0] == 'send' and a is not None and _is_fix(h['sessions'][a]):
+            cand = dict(h, events=[[a, ['send', {'cls': 'Order', 'f1': 1, 'f2': 'a'}]] if j == i else e for j, e in enumerate(h['events'])])
+            if cand != h and bad(cand):
+                h = cand
+    return h
+
+
+def check_multi_history(ctx, h, ans_for=None):
+    replay = lambda x: {'kind': 'multi-history', 'history': h_json(x)}
+    try:
+        out = run_multi_history(h)
+    except Exception as e:  # noqa
+        report(ctx, f'multi-session history could not be driven: {err_name(e)}: {e}', replay(h))
+        return None
+    if out.get('escaped'):
+        ctx.count('history-did-not-complete:' + out['escaped'])
+        ctx.disagree(f'several sessions: the history did not run to its end on the implementation ({out["escaped"]})', replay(h))
+        if out['initial'] is None:
+            return None
+    try:
+        bad = multi_oracle(h, out)
+    except Exception as e:  # noqa
+        ctx.disagree(f'several sessions: the oracle could not be evaluated on what the implementation did: {err_name(e)}: {e}', replay(h))
+        bad = None
+    if bad and len(ctx.violations) >= 3:
+        report(ctx, 'several sessions: ' + bad, replay(h))                          # not shrunk
+    elif bad:
+        def failing(c):
+            return multi_oracle(c, run_multi_history(c)) is not None
+        m = shrink_multi(h, failing)
+        try:
+            bad = multi_oracle(m, run_multi_history(m)) or bad
+        except Exception:  # noqa
+            m = h
+        report(ctx, 'several sessions: ' + bad, replay(m))
+    if ans_for is not None and not out.get('escaped'):
+        req, recs = multi_model_request(h, out)
+        d = multi_compare(h, out, ans_for(req), recs)
+        if d:
+            ctx.disagree('several sessions: ' + d, replay(h))
+    return out
+
+
+def gen_fix_session_ops(rng, n):
+    """one FIX session's own operations: [sends before the logon] logon [sends of every kind / resends / heartbeats / close]"""
+    ops = []
+    if rng.random() < 0.25:
+        ops += [['send', gen_fix_msg(rng)] for _ in range(rng.randint(1, 2))]
+    if rng.random() < 0.06:
+        return ops + [['send', gen_fix_msg(rng)] for _ in range(rng.randint(0, 2))]       # never logs on
+    logon = {'cls': 'Login', 'user': rng.choice(['user', None, 'u2']), 'hdr': {'SenderCompID': 'CLIENT', 'TargetCompID': 'SERVER'}}
+    if rng.random() < 0.5:        # the logon states its number — or not (the session then numbers the logon itself)
+        logon['hdr']['MsgSeqNum'] = rng.choice([0, 1, 1, 2, 5, 100, 10 ** 9, 10 ** 18, -4]) if rng.random() < 0.6 else rng.randint(0, 10 ** 6)
+    if rng.random() < 0.5:
+        logon['hdr']['SenderSubID'] = 'SUB'
+    if rng.random() < 0.04:
+        logon['user'] = 'café'                       # the logon itself cannot be encoded
+    ops.append(['logon', logon])
+    resend = None
+    for _ in range(n):
+        c = rng.random()
+        if c < 0.62:
+            resend = gen_fix_msg(rng)
+            ops.append(['send', resend])
+        elif c < 0.68 and resend is not None:
+            ops.append(['send', resend])
+        elif c < 0.95:
+            ops.append(['hb'])
+        else:
+            ops.append(['close'])
+    return ops
+
+
+def gen_multi_history(rng, thorough=False):
+    """2–3 (thorough: up to 4) sessions alive at once: FIX sessions of the same or different versions created with / without
+    `sequence=` whose logons state a MsgSeqNum or not, soup servers and clients created with / without `sequence=`; every session's own
+    operations are generated as for a single-session history and then merged in a random interleaving (each session keeps its
+    order), with virtual time passing for the whole process in between"""
+    n_sess = rng.choice([2, 2, 2, 3, 3, 4] if thorough else [2, 2, 2, 3, 3])
+    c = rng.random()
+    protos = ['fix'] * n_sess if c < 0.55 else (['soup'] * n_sess if c < 0.65 else
+                                                 ['fix', rng.choice(['fix', 'soup'])] + [rng.choice(['fix', 'soup']) for _ in range(n_sess - 2)])
+    rng.shuffle(protos)
+    same_ver = rng.random() < 0.4
+    ver0 = rng.choice(['42', '44', '50'])
+    sessions, own = [], []
+    for proto in protos:
+        if proto == 'fix':
+            a = rng.random()
+            seq_arg = None if a < 0.55 else (['int', rng.choice([1, 1, 7, 1000])] if a < 0.8 else ['count', rng.choice([1, 5, 1000])])
+            sessions.append({'proto': 'fix', 'ver': ver0 if same_ver else rng.choice(['42', '44', '50']), 'seq_arg': seq_arg,
+                             'hb': rng.random() < 0.6})
+            own.append(gen_fix_session_ops(rng, rng.randint(1, 8)))
+        else:
+            role = rng.choice(['server', 'client'])
+            sessions.append({'proto': 'soup', 'role': role, 'init': None if rng.random() < 0.3 else gen_init(rng),
+                             'connected': rng.random() > 0.04})
+            ops = [op for op in gen_soup_ops(rng, role, rng.randint(2, 10), False) if op[0] != 'advance']
+            if role == 'client' and sessions[-1]['connected'] and rng.random() < 0.7:
+                ops.insert(0, ['login', gen_login(rng)])
+            own.append(ops)
+    # random merge; now and then one session runs a burst, so both fine-grained alternation and long runs occur
+    events, pos = [], [0] * len(own)
+    while True:
+        live = [i for i in range(len(own)) if pos[i] < len(own[i])]
+        if not live:
+            break
+        i = rng.choice(live)
+        for _ in range(rng.choice([1, 1, 1, 2, 3])):
+            if pos[i] < len(own[i]):
+                events.append([i, own[i][pos[i]]])
+                pos[i] += 1
+        if rng.random() < 0.18:
+            events.append([None, ['advance', rng.choice([1, 1, 2, 3, 5])]])
+    return {'sessions': sessions, 'events': events}
+
+
+def multi_witness_history(term):
+    """the history of Witness/C10Multi.lean, as printed by the driver (`witness C10Multi`), as a harness history: sessions created
+    without `sequence=`, `login none` = a logon whose header carries no MsgSeqNum"""
+    evs = common.parse_sx(term)[0]
+    n = max(int(e[0]) for e in evs) + 1
+    events = []
+    for a, op in evs:
+        if op[0] == 'login':
+            hdr = {'SenderCompID': 'CLIENT', 'TargetCompID': 'SERVER'}
+            if op[1] != 'none':
+                hdr['MsgSeqNum'] = int(op[1])
+            events.append([int(a), ['logon', {'cls': 'Login', 'user': 'user', 'hdr': hdr}]])
+        elif op[0] == 'send':
+            events.append([int(a), ['send', {'cls': 'Order', 'f1': 1, 'f2': 'a'}]])
+        else:
+            events.append([int(a), ['hb']])
+    return {'sessions': [{'proto': 'fix', 'ver': '44', 'seq_arg': None, 'hb': False} for _ in range(n)], 'events': events}
+
+
+MULTI_WITNESS = '((0 (login none true true)) (1 (login none true true)) (0 (send true true)) (1 (send true true)) (0 (hb true true)))'
+
+
+# =====================================================================================================================
 # run / replay
 # =====================================================================================================================
 class Asker:
@@ -1052,19 +1596,48 @@ def run_case(ctx, case, asker):
             for ev in out['events']:
                 ctx.count('fix-' + (ev[2].split()[0] if ev[0] == 'op' else 'auto-hb'))
         return out
+    if case['kind'] == 'multi-history':
+        h = h_unjson(case['history'])
+        ctx.case(json.dumps(case, default=repr)[:400], nontrivial=len(h['events']) > 0, sample_every=53)
+        protos = sorted(sp['proto'] for sp in h['sessions'])
+        ctx.count(f'multi-{len(protos)}-sessions:' + '+'.join(protos))
+        fixs = [sp for sp in h['sessions'] if _is_fix(sp)]
+        if len(fixs) >= 2:
+            ctx.count('multi-fix-versions:' + ('same' if len({sp['ver'] for sp in fixs}) == 1 else 'different'))
+        for sid, sp in enumerate(h['sessions']):
+            if _is_fix(sp):
+                lg = [op for a, op in h['events'] if a == sid and op[0] == 'logon']
+                ctx.count('multi-fix-session:' + ('sequence=' + sp['seq_arg'][0] if sp.get('seq_arg') else 'no-sequence-arg') + ','
+                          + ('never-logs-on' if not lg else ('logon-states-MsgSeqNum' if logon_stated(lg[0][1]) is not None else 'logon-without-MsgSeqNum')))
+            else:
+                ctx.count('multi-soup-session:' + sp['role'] + (',no-sequence-arg' if sp.get('init') is None else ',sequence='))
+        out = check_multi_history(ctx, h, ans_for)
+        if out and out.get('events'):
+            switches = sum(1 for x, y in zip(out['events'], out['events'][1:])
+                           if x['sid'] is not None and y['sid'] is not None and x['sid'] != y['sid'])
+            ctx.count('multi-session-switches-between-consecutive-writes/ops', switches)
+            for rec in out['events']:
+                if rec['proto'] == 'fix' and rec['kind'] != 'close':
+                    ctx.count('multi-fix-' + ('auto-hb' if rec['kind'] == 'auto' else rec['outcome'].split()[0]))
+                elif rec['proto'] == 'soup' and rec['kind'] == 'auto':
+                    ctx.count('multi-soup-automatic-write')
+        return out
     raise ValueError(case['kind'])
 
 
 def run(ctx):
     rng = ctx.rng
     quick = ctx.tier == 'quick'
-    n_srv, n_cli, n_fix = (160, 160, 220) if quick else (2500, 2500, 3500)
+    n_srv, n_cli, n_fix, n_multi = (160, 160, 220, 170) if quick else (2500, 2500, 3500, 3000)
     ctx.cov['rule'] = ('histories on real sessions over a fake transport in virtual time: soup server / soup client (login reply '
                        'frames with the sequence field in left-, right-, zero-, NUL-padded and odd spellings, then sends) / FIX '
                        '(sends before the logon, logon with arbitrary MsgSeqNum, valid / validation-rejected / unencodable sends — the text that '
                        'cannot be serialised in the body, a body group instance, an application-set header field, a header group instance '
                        'or the trailer —, '
-                       'explicit and timer-driven heartbeats, close); a case is one history, distinct = distinct history')
+                       'explicit and timer-driven heartbeats, close) / SEVERAL sessions alive in one process (2-4: FIX sessions of the same or '
+                       'different versions created with / without sequence=, logons with / without MsgSeqNum, soup servers and clients; every '
+                       'session\'s own history as above, merged in a random interleaving, virtual time passing for all of them; oracle per '
+                       'session, model = product of the per-session models); a case is one history, distinct = distinct history')
     asker = Asker(ctx.driver)
     probe_variant(ctx)
     # ---- corpus and the Lean witness first
@@ -1087,7 +1660,19 @@ def run(ctx):
         out = run_case(ctx, {'kind': 'fix-history', 'history': wh}, asker)
         if out is not None:
             ctx.count('fix-segment-witness-tags:' + str([tag34(f) for f in out['frames']]))
+    # ---- Witness/C10Multi.lean: the two-session history on which a counter shared between sessions breaks the statement
+    if asker.ok:
+        w = asker.ask('witness C10Multi')
+        if w != MULTI_WITNESS:
+            ctx.disagree(f'multi-session witness history printed by the driver changed: {w}',
+                         {'kind': 'multi-history', 'history': multi_witness_history(MULTI_WITNESS)})
+    out = run_case(ctx, {'kind': 'multi-history', 'history': multi_witness_history(MULTI_WITNESS)}, asker)
+    if out is not None:
+        ctx.count('multi-witness-tags:' + str([[tag34(f) for f in ws] for ws in out['writes']]))
     # ---- generated histories
+    for i in range(n_multi):
+        h = gen_multi_history(rng, thorough=not quick)
+        run_case(ctx, {'kind': 'multi-history', 'history': h_json(h)}, asker)
     for i in range(n_srv):
         big = (i % 25 == 0)
         h = {'role': 'server', 'init': gen_init(rng), 'connected': rng.random() > 0.04,
@@ -1116,7 +1701,18 @@ def replay(ctx, path):
     ctx.case('replay-marker')
     if out is None:
         return
-    if rep['kind'] == 'soup-history':
+    if rep['kind'] == 'multi-history':
+        h = h_unjson(rep['history'])
+        for sid, sp in enumerate(h['sessions']):
+            print(f'session {sid}: {describe_session(sid, sp)}')
+        for rec in out['events']:
+            what = rec.get('outcome') if rec['proto'] == 'fix' else (rec.get('err') if rec['proto'] == 'soup' else '')
+            print(f"  event {rec['idx']}: session {rec['sid']} {rec['kind']}: {what}"
+                  + (f"   counters of all sessions afterwards: {rec['snap']}" if rec['snap'] is not None else ''))
+        for sid, (sp, ws) in enumerate(zip(h['sessions'], out['writes'])):
+            print(f'session {sid} wrote:', [tag34(f) for f in ws] if _is_fix(sp) else [w[:12].hex() for w in ws])
+        print('oracle:', multi_oracle(h, out))
+    elif rep['kind'] == 'soup-history':
         print('implementation: per operation (exception, session.sequence, model ops):', out['trace'])
         print('implementation: login:', out['login'], ' writes:', [w[:12].hex() for w in out['writes']])
     else:
